@@ -162,7 +162,7 @@ func checkLoadHeuristic(c *Ctx) {
 	c.seeFn(funcName(fn))
 	okCount, okVer := false, false
 	detail := "no comparison of the index document count with the number of excerpts"
-	for _, g := range cmpGuards(fn, nil) {
+	for _, g := range guardsDeep(fn, nil, 0) {
 		c.Sites++
 		gg, o := g.oriented(func(v ssa.Value) bool { return hasOriginCall(v, "repository.Index.DocCount", 0) != nil })
 		if o {
